@@ -22,8 +22,10 @@ PLAN = [
              "C08-b": "U is the determinant of that matrix",
              "C08-c": "the determinant is that of the Cholesky factor of that matrix"}),
     ("C09", {"C09-a": "u vectors", "C09-b": "V with m² and the cross term (a missing m² is invisible for massless graphs)",
+             "C09-e": "the Vector primitives u and V are written in (dot, squared, +, −, scaling) are componentwise over all D components",
              "C09-c": "the matrix inverted in V is L"}),
     ("C10", {"C10-a": "momentum map with the Cholesky factor not transposed",
+             "C10-f": "the Vector primitives of the momentum map are componentwise over all D components",
              "C10-c": "covariance (v/2λ)·Q⁻ᵀQ⁻¹ = (v/2λ)·L⁻¹",
              "C10-d": "Q is the Cholesky factor of L and Q⁻¹ its inverse",
              "C10-e": "centre and scale use the statement's u and v"}),
@@ -39,3 +41,8 @@ def run(ctx):
     from .restate import restate_f64_primitives
     from .kernels import builder_roles
     restate_f64_primitives(ctx, [lambda: ctx.roles.sample(), lambda: builder_roles(ctx)[2]], "the sampling routine and the table builder")
+    # the inputs the stage formulas see are the caller's (restated from the entry clause of C12-g / C13-g / C14-k: an entry point that
+    # "sanitises" the point or the edge data integrates another function)
+    from . import common
+    ctx.rule("C01.entry", "the x-space entry hands point, edge data, settings and table to the sampling routine unmodified")
+    common.entry_forwards_inputs(ctx, ctx.roles, "C01.entry")
